@@ -417,7 +417,13 @@ class Interp:
                     raise Unsupported("constant not representable")
                 nx = VF(s.bv(sc), y.i, y.f, T, sc + 1, const=(sc, y.f))
                 return (y, nx) if swap else (nx, y)
-        raise Unsupported("fixed formats differ")
+        # two values of different formats: the common format (binary points aligned)
+        i, f = max(a.i, b.i), max(a.f, b.f)
+
+        def conv(x):
+            return VF(x.v * s.bv(2 ** (f - x.f)), i, f, x.ok, s.note(x.hi * 2 ** (f - x.f)))
+
+        return conv(a), conv(b)
 
     def compare(s, op, a, b):
         if isinstance(a, VB) and isinstance(b, VB):
@@ -716,6 +722,9 @@ class Interp:
             if isinstance(v, VF):
                 if (v.i, v.f) != (t[1], t[2]):
                     if v.const is None:
+                        if v.i <= t[1] and v.f <= t[2]:
+                            # widening: same value in the wider format
+                            return VF(v.v * s.bv(2 ** (t[2] - v.f)), t[1], t[2], v.ok, s.note(v.hi * 2 ** (t[2] - v.f)))
                         raise Unsupported("fixed format coercion")
                     v = s.fix_align(v, VF(s.bv(0), t[1], t[2]))[0]
                 return v
